@@ -8,6 +8,7 @@ import RagcModel.Props.C09
 import RagcModel.Props.C12
 import RagcModel.Lemmas.WriterGroups
 import RagcModel.Lemmas.WriterContainer
+import RagcModel.Lemmas.WriterMain
 /-!
 # C02 — archives conform to the AGC v3 format: an independent decoder agrees
 
@@ -53,9 +54,18 @@ decisions (the second half of the section list below):
 * `read_write_segments`: every member of every group is recovered by the decoder's get-segment
   path from the id the writer registers for it (reference / LZ entry / raw entry).
 
-`Props/C01.lean` continues with the contig level (`read_write_bases`). NOT proved: the last
-composition step to `decodeArchive (writeArchive …) = ok d ∧ d.violations = []` — see the list at
-the end of `Props/C01.lean`.
+* `read_write_container`, `read_write_catalogue`, `read_write_groups`: the three middle stages of
+  the end-to-end theorem as statements of their own — for the bytes of `writeArchive`, the decoder
+  opens the archive and every stream reads back its parts; `decodeCatalogue` returns the sample
+  names and the per-sample descriptor tables of the writer's catalogue (C03 round trips over the
+  50-sample batches) and `decodeGroups` returns a group table that holds every group's plan — all
+  with the violation accumulator unchanged;
+* `writer_conforms`: **every archive of the reference writer conforms** — the decoder reads it and
+  its list of breached format rules is empty (corollary of `Props.C01.read_write`'s proof);
+* `writer_output_accepted`: the output is accepted by the repaired container reader
+  `Container.openBytesFixed` with every part inside the file (link to C14), for ALL decisions.
+
+The end-to-end theorem `read_write` (decode ∘ write = id) is stated in `Props/C01.lean`.
 -/
 namespace Ragc.Props.C02
 open Ragc.StreamNames Ragc.Packs Ragc.Agc3
@@ -394,5 +404,98 @@ example : Ragc.Writer.planGroup 5 ⟨3, false, []⟩ [[0, 1, 2], [3], [0, 1, 2]]
     = some ⟨3, none, [[[127], [0, 1, 2], [3]]], [1, 2, 1]⟩ := by decide
 -- an LZ group whose only member is its reference
 example : Ragc.Writer.planGroup 5 ⟨16, true, []⟩ [[0, 1, 2, 3]] = some ⟨16, some [0, 1, 2, 3], [], [0]⟩ := by decide
+
+/-! ## the stages of the end-to-end theorem -/
+
+open Ragc.Writer Ragc.WriterLemmas in
+/-- **Stage 1 — the container.** For the bytes `bs` of the reference writer (any well-formed
+decisions): the decoder opens `bs`, the directory lists `Writer.regNames dec` (the seven fixed
+streams, then `x…d`, `x…r` per group in creation order) and every stream reads back exactly the
+parts `Writer.partList` buffered under its name. -/
+theorem read_write_container (cfg : Cfg) (inp : List Sample) (dec : Decisions)
+    (zc : Nat → List Nat → List Nat) (bs : List Nat) (hdec : DecisionsOK cfg inp dec)
+    (hw : writeArchive cfg inp dec zc = some bs) :
+    ∃ outs o, writeGroups cfg zc (storedAll cfg.k inp dec) dec.groups = some outs ∧
+      openArchive bs = .ok o ∧
+      Opens o (regNames dec) (partList cfg zc inp outs
+        (Ragc.Details.storeBatches cfg.segSize cfg.k 50 (catalogue inp dec outs))) := by
+  have hok := decOK_of cfg inp dec hdec
+  obtain ⟨outs, hwg, _, hmd, hbs, hlen⟩ := writeArchive_unpack cfg inp dec zc bs hw
+  obtain ⟨o, hopen, hdir, hread⟩ := archive_opens (regNames dec) _ (regNames_nodup dec hok.nodup)
+    (by rw [regNames_eq]; simp [fixedStreamNames]) (regNames_nz dec)
+    (partList_names cfg zc inp dec outs _ (outs_ids cfg zc _ _ _ hwg)) hmd (by rw [← hbs]; exact hlen)
+  exact ⟨outs, o, hwg, by rw [hbs]; exact hopen, ⟨hdir, hread⟩⟩
+
+open Ragc.Writer Ragc.WriterLemmas in
+/-- **Stage 2 — the catalogue.** On an opened archive that returns the reference writer's parts
+(`read_write_container`), `decodeCatalogue` returns the violation accumulator UNCHANGED
+(collection-metadata, collection-batches), the sample names of the input, and per sample the table
+`contig name ↦ descriptors` of the writer's catalogue — over any number of 50-sample batches.
+Composition of C03 `sample_names_roundtrip`, `names_roundtrip`, `details_roundtrip` with the part
+layout of `store_contig_batch`. -/
+theorem read_write_catalogue (zc : Nat → List Nat → List Nat) (zd : List Nat → Option (List Nat))
+    (hz : ∀ l x, zd (zc l x) = some x) (hne : ∀ l x, zc l x = [] → x = [])
+    (cfg : Cfg) (inp : List Sample) (dec : Decisions) (bs : List Nat) (hdec : DecisionsOK cfg inp dec)
+    (hcodes : codesOK inp) (hw : writeArchive cfg inp dec zc = some bs) (a : Acc) :
+    ∃ outs o, openArchive bs = .ok o ∧
+      decodeCatalogue zd o cfg.k cfg.segSize a = .ok (a, inp.map (·.name),
+        (List.zipWith (fun s dcs => tableOf outs s.contigs dcs) inp dec.pieces).toArray,
+        (Ragc.Details.storeBatches cfg.segSize cfg.k 50 (catalogue inp dec outs)).length) := by
+  have hok := decOK_of cfg inp dec hdec
+  obtain ⟨outs, o, hwg, hopen, hO⟩ := read_write_container cfg inp dec zc bs hdec hw
+  obtain ⟨outs', hwg', hfit, _, _, _⟩ := writeArchive_unpack cfg inp dec zc bs hw
+  rw [hwg] at hwg'
+  cases hwg'
+  refine ⟨outs, o, hopen, ?_⟩
+  rw [← catalogue_tables]
+  exact decodeCatalogue_ok zc zd hz hne cfg dec inp outs o _ hO hfit
+    (catalogue_ok cfg inp dec zc outs hok hcodes hwg) (catalogue_length inp dec outs hok.shape) hok.nS
+    (by
+      intro s hs
+      obtain ⟨i, hi⟩ := List.mem_iff_getElem?.mp hs
+      have hil : i < dec.pieces.length := by rw [hok.shape]; exact (List.getElem?_eq_some_iff.mp hi).1
+      exact nameOK_iff _ (hok.samples _ (mem_zip_of_get _ _ _ _ _ hi (List.getElem?_eq_getElem hil))).name)
+    hok.pred a
+
+open Ragc.Writer Ragc.WriterLemmas in
+/-- **Stage 3 — the groups.** On the same opened archive, `decodeGroups` returns the violation
+accumulator UNCHANGED (stream-name, duplicate-stream, one-reference-part, raw-group-with-reference,
+part-undecodable, metadata-size, pack-no-final-separator, pack-cardinality, raw-placeholder) and a
+group table in which, for every group, `findGroup` finds a group holding that group's plan
+(`GDMatches`); every decoded group is one of the decisions' groups. `group_roundtrip` folded over
+the directory (`xStreams`, `addStream`). -/
+theorem read_write_groups (zc : Nat → List Nat → List Nat) (zd : List Nat → Option (List Nat))
+    (hz : ∀ l x, zd (zc l x) = some x) (hne : ∀ l x, zc l x = [] → x = [])
+    (cfg : Cfg) (inp : List Sample) (dec : Decisions) (bs : List Nat) (hdec : DecisionsOK cfg inp dec)
+    (hcodes : codesOK inp) (hw : writeArchive cfg inp dec zc = some bs) (a : Acc) :
+    ∃ o gds, openArchive bs = .ok o ∧ decodeGroups zd o a = .ok (a, gds) ∧ GroupsDecoded cfg inp dec gds := by
+  obtain ⟨outs, o, hwg, hopen, hO⟩ := read_write_container cfg inp dec zc bs hdec hw
+  obtain ⟨gds, h1, h2⟩ := decodeGroups_ok zc zd hz hne cfg inp dec outs _ o (decOK_of cfg inp dec hdec) hcodes hwg hO a
+  exact ⟨o, gds, hopen, h1, h2⟩
+
+open Ragc.Writer Ragc.WriterLemmas in
+/-- **Every archive of the reference writer conforms to the format.** All decisions, all inputs
+over the literal codes, any ZSTD with the two C12 facts: the independent decoder reads the bytes,
+finds the parameters that were given, and its list of breached format rules is EMPTY. (The real
+writer is an instance of the reference writer on every generated archive: C02 harness, byte
+identity.) -/
+theorem writer_conforms (cfg : Cfg) (inp : List Sample) (dec : Decisions)
+    (zc : Nat → List Nat → List Nat) (zd : List Nat → Option (List Nat)) (bs : List Nat)
+    (hdec : DecisionsOK cfg inp dec) (hz : ∀ l x, zd (zc l x) = some x) (hne : ∀ l x, zc l x = [] → x = [])
+    (hcodes : codesOK inp) (hw : writeArchive cfg inp dec zc = some bs) :
+    ∃ d, decodeArchive bs zd = .ok d ∧ d.violations = [] ∧
+      d.k = cfg.k ∧ d.mm = cfg.minMatch ∧ d.segSize = cfg.segSize := by
+  obtain ⟨d, h1, _, _, h4, h5, h6, h7⟩ := read_write_main cfg inp dec zc zd bs hdec hz hne hcodes hw
+  exact ⟨d, h1, h4, h5, h6, h7⟩
+
+open Ragc.Writer Ragc.WriterLemmas in
+/-- **C14 link.** Whatever the decisions (no `DecisionsOK` needed), the bytes the reference writer
+returns are accepted by the repaired container reader `openBytesFixed` (footer-size and
+part-range checks) and every part of the directory lies inside the file. -/
+theorem writer_output_accepted (cfg : Cfg) (inp : List Sample) (dec : Decisions)
+    (zc : Nat → List Nat → List Nat) (bs : List Nat) (hw : writeArchive cfg inp dec zc = some bs) :
+    ∃ r, Ragc.Container.openBytesFixed Ragc.Agc3.seekMax bs = .ok r ∧ r.file = bs ∧
+      Ragc.Container.partsInFile bs.length r.dir = true :=
+  writer_output_opens cfg inp dec zc bs hw
 
 end Ragc.Props.C02
